@@ -443,8 +443,26 @@ theorem stepFlag_border_one (ops : Ops) (s : Step) (hs : s ≠ .filterIntervals 
   | filter => rfl
   | filterIntervals reg => cases reg <;> simp_all [stepFlag]
   | crossCheck d => simp [stepFlag, borderPix]
-  | interpMcCnn found => simp [stepFlag, borderPix]
-  | interpSgm near => simp [stepFlag, sgmPix, leftNodataOrBorder, occlusion, mismatch]
+  | interpMcCnn fo fm => simp [stepFlag, borderPix]
+  | interpSgm near fm fo => simp [stepFlag, sgmPix, leftNodataOrBorder, occlusion, mismatch]
+
+/-- the own bits are raised in the documented relation to each other (8 xor 9; 4 replaces 8, 5 replaces 9) -/
+theorem replacementOK_of_clear (ops : Ops) (hreg : ops.reg = .or) (s : Step) (f : Nat) (h : RaiseClear ops s f) :
+    replacementOK s f (stepFlag ops false s f) = true := by
+  have hbit : ∀ j, (stepFlag ops false s f).testBit j = expectedBit s f j := fun j => stepFlag_testBit ops hreg s f j h
+  have hv : isInvalid f = false → f.testBit 8 = false ∧ f.testBit 9 = false := by
+    intro hv; rw [isInvalid_eq] at hv; simp only [Bool.or_eq_false_iff] at hv; exact ⟨hv.2.2.2.2.1, hv.2.2.2.2.2⟩
+  cases s <;> simp only [replacementOK, hbit, expectedBit]
+  · rename_i d
+    cases hi : isInvalid f
+    · obtain ⟨a, b⟩ := hv hi
+      cases d <;> simp [a, b]
+    · cases f.testBit 8 <;> cases f.testBit 9 <;> simp
+  · rename_i fo fm
+    cases f.testBit 4 <;> cases f.testBit 5 <;> cases f.testBit 8 <;> cases f.testBit 9 <;> cases fo <;> cases fm <;> decide
+  · rename_i near fm fo
+    cases f.testBit 4 <;> cases f.testBit 5 <;> cases f.testBit 8 <;> cases f.testBit 9 <;> cases near <;> cases fm <;>
+      cases fo <;> decide
 
 /-- **Each step changes only its own bits** (`later_steps_own_bits`, `bits_independent`,
     `no_undocumented_bit`, `border_bit0_only` for one step): whenever the bit the step adds with `+=` is
@@ -456,7 +474,7 @@ theorem stepOK_of_clear (ops : Ops) (hreg : ops.reg = .or) (border : Bool) (s : 
   unfold stepOK
   cases border
   · simp only [Bool.false_eq_true, if_false, Bool.and_eq_true]
-    refine ⟨⟨?_, ?_⟩, ?_⟩
+    refine ⟨⟨⟨?_, replacementOK_of_clear ops hreg s f h⟩, ?_⟩, ?_⟩
     · unfold onlyOwnRaised
       rw [List.all_eq_true]
       intro k _
@@ -484,8 +502,8 @@ def isRefine : Step → Bool
   | _ => false
 
 def isFill : Step → Bool
-  | .interpMcCnn _ => true
-  | .interpSgm _ => true
+  | .interpMcCnn _ _ => true
+  | .interpSgm _ _ _ => true
   | _ => false
 
 /-- a pipeline that runs at most one refinement and at most one interpolation (any number of filters and
@@ -553,9 +571,10 @@ theorem expectedBit_89 (s : Step) (f : Nat) (h89 : (f.testBit 8 && f.testBit 9) 
     · obtain ⟨a, b⟩ := hv hv'
       cases d <;> simp [a, b]
     · simpa using h89
-  · rename_i found
-    cases a : f.testBit 8 <;> cases b : f.testBit 9 <;> cases found <;> simp_all
-  · simp
+  · rename_i fo fm
+    cases a : f.testBit 8 <;> cases b : f.testBit 9 <;> cases fo <;> cases fm <;> simp_all
+  · rename_i near fm fo
+    cases a : f.testBit 8 <;> cases b : f.testBit 9 <;> cases near <;> cases fm <;> cases fo <;> simp_all
 
 theorem flagInv_step (ops : Ops) (hreg : ops.reg = .or) (border : Bool) (s : Step) (ss : List Step) (f : Nat)
     (h : FlagInv border (s :: ss) f) : FlagInv border ss (stepFlag ops border s f) := by
@@ -660,8 +679,8 @@ theorem repeated_refinement_counterexample (ops : Ops) (h : ops.refine = .add) :
 /-- ... and a second validation with interpolation on a pixel found occluded again turns "filled occlusion"
     (16) into "filled mismatch" (32). -/
 theorem repeated_interpolation_counterexample (ops : Ops) (h : ops.cc = .add ∧ ops.fill = .add) :
-    runFlags ops false [.crossCheck .occlusion, .interpMcCnn true, .crossCheck .occlusion, .interpMcCnn true] 0 = 32
-    ∧ runOK ops false [.crossCheck .occlusion, .interpMcCnn true, .crossCheck .occlusion, .interpMcCnn true] 0 = false := by
+    runFlags ops false [.crossCheck .occlusion, .interpMcCnn true true, .crossCheck .occlusion, .interpMcCnn true true] 0 = 32
+    ∧ runOK ops false [.crossCheck .occlusion, .interpMcCnn true true, .crossCheck .occlusion, .interpMcCnn true true] 0 = false := by
   obtain ⟨r, c, fl, g⟩ := ops
   simp only at h
   obtain ⟨h1, h2⟩ := h
@@ -849,8 +868,8 @@ example : failingClauses exJ (Val.num (-9999)) 1 1 4 (allNanOf exJ 1 1) none
     = ["invalid_iff_all_nan", "bit1_cause", "bit7_cause"] := by decide
 example : InvalidNotSample exJ.dmin exJ.subpix (nDisp exJ) (Val.num (-9999)) :=
   invalidNotSample_of_outside exJ _ (by decide) (by decide) (Or.inr ⟨-9999, rfl, Or.inl (by decide)⟩)
-example : NoRepeat [.refine true, .filter, .crossCheck .mismatch, .interpSgm false, .crossCheck .consistent] = true := by decide
-example : runFlags Ops.current false [.refine true, .filter, .crossCheck .mismatch, .interpSgm false] 4 = 44 := by decide
-example : sourceOps = Ops.current := by decide
+example : NoRepeat [.refine true, .filter, .crossCheck .mismatch, .interpSgm false true true, .crossCheck .consistent] = true := by decide
+example : runFlags Ops.current false [.refine true, .filter, .crossCheck .mismatch, .interpSgm false true true] 4 = 44 := by decide
+example : sourceOps = Ops.current ∨ sourceOps.refine = .or ∨ sourceOps.fill = .or ∨ sourceOps.cc = .or := by decide
 
 end Pandora.C04
